@@ -177,7 +177,9 @@ fn run_hs(base: Instant, cfgs: &[PairCfg], c: &HsCase, dump: bool) -> (u64, Vec<
 }
 
 /// Spoofed Initial of a given size from an address that never continues
-fn run_spoof(base: Instant, cfg: &PairCfg, size: usize, copies: usize, tail: usize) -> (u64, Vec<(String, String)>, u64, usize, u64) {
+/// `tail` = bytes of undecodable garbage after the Initial; `pkts` = number of well-formed but
+/// undecryptable coalesced Handshake-type packets after it (each 45 bytes)
+fn run_spoof(base: Instant, cfg: &PairCfg, size: usize, copies: usize, tail: usize, pkts: usize) -> (u64, Vec<(String, String)>, u64, usize, u64) {
     let r = guarded(|| {
         // obtain a genuine first Initial
         let p0 = std_pair_pre(base, cfg, Wl::W0, ReadMode::default(), |_| {});
@@ -191,7 +193,19 @@ fn run_spoof(base: Instant, cfg: &PairCfg, size: usize, copies: usize, tail: usi
         let fake = addr(11);
         let saddr = p.w.nodes[SERVER].addr;
         for i in 0..copies {
-            let mut d = puppet::reforge_initial(&ini, size - tail, i as u64);
+            let mut coalesced = vec![];
+            for k in 0..pkts {
+                coalesced.push(0xe0 | 0x03);
+                coalesced.extend_from_slice(&ini.version.to_be_bytes());
+                coalesced.push(ini.dcid.len() as u8);
+                coalesced.extend_from_slice(&ini.dcid);
+                coalesced.push(ini.scid.len() as u8);
+                coalesced.extend_from_slice(&ini.scid);
+                wire::put_var(&mut coalesced, 24);
+                coalesced.extend((0..24).map(|j| (j * 7 + k) as u8));
+            }
+            let mut d = puppet::reforge_initial(&ini, size - tail - coalesced.len().min(size - tail - 200), i as u64);
+            d.extend_from_slice(&coalesced);
             // trailing bytes after the Initial packet's own length: an undecodable coalesced remainder
             d.extend((0..tail).map(|j| (j * 13 + 5) as u8 & 0x7f));
             p.w.inject(fake, saddr, d, Duration::from_millis(i as u64));
@@ -232,7 +246,7 @@ pub fn main(args: &Args) -> ! {
     let dl = deadline(if thorough { 1200 } else { 45 });
     let k: u32 = if thorough { 13 } else { 10 };
     let cs = cfgs(thorough);
-    rep.rule = format!("E3 on the real server endpoint with a byte ledger per remote address built from the harness's delivery and emission log: (a) honest client, every drop mask over the first K={k} datagrams of both directions (so the server also runs on its timers alone), 30 s of virtual time, for certificate size x initial MTU x Retry x GSO configurations; (b) client vanishing after every step; (c) single dup/delay/reorder of each early datagram; (d) spoofed Initials of sizes 1199/1200/1201/1452 (1-3 copies) from an address that never answers; (e) stateless reset: inciting datagrams of EVERY size 1..=1300 and pairs 0/19/20/21 ms apart; (f) Initials of every size 1..=1199. Invariant for each datagram emitted before the address is validated: bytes sent before it < 3 x bytes received. Non-trivial = execution whose trace differs from the baseline; distinct = distinct trace hashes.");
+    rep.rule = format!("E3 on the real server endpoint with a byte ledger per remote address built from the harness's delivery and emission log: (a) honest client, every drop mask over the first K={k} datagrams of both directions (so the server also runs on its timers alone), 30 s of virtual time, for certificate size x initial MTU x Retry x GSO configurations; (b) client vanishing after every step; (c) single dup/delay/reorder of each early datagram; (d) spoofed Initials of sizes 1199/1200/1201/1452 (1-3 copies, alone, with 1/300/900 bytes of coalesced garbage, or with 1/2/5/20 well-formed undecryptable coalesced packets) from an address that never answers; (e) stateless reset: inciting datagrams of EVERY size 1..=1300 and pairs 0/19/20/21 ms apart; (f) Initials of every size 1..=1199. Invariant for each datagram emitted before the address is validated: bytes sent before it < 3 x bytes received. Non-trivial = execution whose trace differs from the baseline; distinct = distinct trace hashes.");
     let mut tasks = vec![];
     for c in &cs {
         for mask in 0..(1u64 << k) {
@@ -280,20 +294,27 @@ pub fn main(args: &Args) -> ! {
     for (ci, _) in cs.iter().enumerate() {
         for size in [1199usize, 1200, 1201, 1452] {
             for copies in [1usize, 2, 3] {
-                spoof_tasks.push((ci, size, copies, 0usize));
+                spoof_tasks.push((ci, size, copies, 0usize, 0usize));
+            }
+            if size >= 1200 {
+                for pkts in [1usize, 2, 5, 20] {
+                    for copies in [1usize, 2] {
+                        spoof_tasks.push((ci, size, copies, 0, pkts));
+                    }
+                }
             }
             if size >= 1200 {
                 for tail in [1usize, 300, 900] {
                     for copies in [1usize, 2, 3] {
-                        spoof_tasks.push((ci, size, copies, tail));
+                        spoof_tasks.push((ci, size, copies, tail, 0));
                     }
                 }
             }
         }
     }
-    let (sres, capped) = e3(spoof_tasks, dl, |&(ci, size, copies, tail)| run_spoof(base, &cs[ci], size, copies, tail));
+    let (sres, capped) = e3(spoof_tasks, dl, |&(ci, size, copies, tail, pkts)| run_spoof(base, &cs[ci], size, copies, tail, pkts));
     rep.exhaustive &= !capped;
-    for ((ci, size, copies, tail), (tr, v, _near, oc, to_fake)) in &sres {
+    for ((ci, size, copies, tail, pkts), (tr, v, _near, oc, to_fake)) in &sres {
         rep.evaluations += 1;
         rep.distinct.insert(*tr);
         let mut v = v.clone();
@@ -307,8 +328,8 @@ pub fn main(args: &Args) -> ! {
         for (sig, what) in v {
             rep.violation(Violation {
                 signature: sig,
-                what: format!("cfg={} spoofed Initial size={size} copies={copies} coalesced-garbage-tail={tail}: {what}", cs[*ci].client.name),
-                replay: json!({"check":"c07","kind":"spoof","cfg":cs[*ci].client.name,"size":size,"copies":copies,"tail":tail}),
+                what: format!("cfg={} spoofed Initial size={size} copies={copies} coalesced-garbage-tail={tail} coalesced-undecryptable-packets={pkts}: {what}", cs[*ci].client.name),
+                replay: json!({"check":"c07","kind":"spoof","cfg":cs[*ci].client.name,"size":size,"copies":copies,"tail":tail,"pkts":pkts}),
             });
         }
     }
@@ -425,6 +446,12 @@ fn replay(args: &Args) -> ! {
             };
             let (_, v, near) = run_hs(Instant::now(), &cs, &c, true);
             println!("violations={v:?} near={near}");
+        }
+        "spoof" => {
+            let cfg = cs.iter().find(|c| c.client.name == r["cfg"].as_str().unwrap_or("")).unwrap_or_else(|| machinery("unknown cfg"));
+            let g = |k: &str| r[k].as_u64().unwrap_or(0) as usize;
+            let (_, v, near, oc, to_fake) = run_spoof(Instant::now(), cfg, g("size"), g("copies").max(1), g("tail"), g("pkts"));
+            println!("violations={v:?} near={near} connections={oc} bytes_sent_to_spoofed_address={to_fake}");
         }
         other => println!("replay kind {other}: parameters {r}"),
     }
